@@ -29,7 +29,10 @@ class BQLSemantics:
         return decimal.Decimal(value)
 
     def date(self, value):
-        return datetime.datetime.strptime(value, '%Y-%m-%d').date()
+        try:
+            return datetime.datetime.strptime(value, '%Y-%m-%d').date()
+        except ValueError as exc:
+            raise tatsu.exceptions.FailedSemantics(str(exc)) from exc
 
     def string(self, value):
         return value[1:-1]
